@@ -76,6 +76,12 @@ let dispatch (t : Stdlib.String.t array) : Stdlib.String.t =
       | Ok l -> "ok " ^ string_of_int (Stdlib.List.length l) ^ " " ^ (if l = [] then "-" else Stdlib.String.concat "," (Stdlib.List.map (fun x -> string_of_n x.rpu_crc) l))
       | Err -> "err"
       | Panic s -> "panic " ^ string_of_n s)
+  | "uniqkeys" -> (
+      (* the hypothesis of C10_precedence on the DM data of an RPU: every (level, target) key held at most once *)
+      match parse_unspec62_nalu !profile_ref src_sw (bytes_of_hex t.(1)) with
+      | Ok x -> (match x.rdm with Some d -> if uniq_check d then "ok true" else "ok false" | None -> "ok nodm")
+      | Err -> "err"
+      | Panic s -> "panic " ^ string_of_n s)
   | "split" ->
       (* the whole input split in one piece: NAL payloads as hex *)
       let l = split_whole (bytes_of_hex t.(1)) in
